@@ -29,6 +29,10 @@ pub struct Ctx {
     pub drv: String,
     pub workdir: String,
     pub only: Option<String>,
+    /// C18: this process is a child that prints `digest <case> <sha256>` lines and exits
+    pub child: bool,
+    /// C18: path of the harness binary built without the `parallel` feature (if built)
+    pub nopar_bin: Option<String>,
 }
 
 impl Ctx {
@@ -75,6 +79,8 @@ fn main() {
     let mut drv = "/verif/lean/PCV/.lake/build/bin/pcvdrv".to_string();
     let mut workdir = "/verif/.build/run".to_string();
     let mut only: Option<String> = None;
+    let mut child = false;
+    let mut nopar_bin: Option<String> = None;
     let mut i = 1;
     while i < args.len() {
         match args[i].as_str() {
@@ -92,6 +98,13 @@ fn main() {
             }
             "--drv" => {
                 drv = args[i + 1].clone();
+                i += 1
+            }
+            "--child" => {
+                child = true;
+            }
+            "--nopar-bin" => {
+                nopar_bin = Some(args[i + 1].clone());
                 i += 1
             }
             "--only" => {
@@ -116,6 +129,8 @@ fn main() {
         drv,
         workdir: workdir.clone(),
         only,
+        child,
+        nopar_bin,
     };
     match prop.as_str() {
         "C01" => {
